@@ -348,6 +348,15 @@ func runDoc(r *vh.Run, dc docCase, configs []wconf) {
 			r.Count("doc:accepted")
 			r.CountN("objects", len(before.tv.nrs))
 		}
+		// references that no in-use object answers (free or missing entries), before the write:
+		// the numbers of the objects the writer creates (fresh info dict, encryption dict, object
+		// streams, the xref stream) must not be among them, or the reference stops being null
+		dangBefore := danglingRefs(before.tv, ctx1)
+		dangSet := map[int]bool{}
+		for _, n := range dangBefore {
+			dangSet[n] = true
+		}
+		recycled := ""
 		out, err := writeOut(ctx1)
 		if err != nil {
 			if strings.HasPrefix(err.Error(), "PANIC") {
@@ -366,10 +375,49 @@ func runDoc(r *vh.Run, dc docCase, configs []wconf) {
 			}
 			continue
 		}
+		if c.enc != "" && ctx1.Encrypt != nil && dangSet[ctx1.Encrypt.ObjectNumber.Value()] {
+			recycled = "recycled-number-still-referenced:encrypt-dict"
+			r.OracleFail(recycled, input(c), fmt.Sprintf("the encryption dictionary was given object number %d, which the document still references (free entry)", ctx1.Encrypt.ObjectNumber.Value()))
+		}
+		if before.info < 0 && ctx1.Info != nil && dangSet[ctx1.Info.ObjectNumber.Value()] {
+			recycled = "recycled-number-still-referenced:info-dict"
+			r.OracleFail(recycled, input(c), fmt.Sprintf("the new info dictionary was given object number %d, which the document still references (free entry)", ctx1.Info.ObjectNumber.Value()))
+		}
 		ctx2, err := readBack(out, c)
 		if err != nil {
-			r.OracleFail("reread-fails", input(c), err.Error())
+			if recycled == "" {
+				r.OracleFail("reread-fails", input(c), err.Error())
+			}
 			continue
+		}
+		for _, n := range dangBefore {
+			e, ok := ctx2.Table[n]
+			if !ok || e == nil || e.Free {
+				continue
+			}
+			kind := ""
+			switch x := e.Object.(type) {
+			case types.XRefStreamDict:
+				kind = "xref-stream"
+			case types.ObjectStreamDict:
+				kind = "object-stream"
+			case types.StreamDict:
+				if t := x.Type(); t != nil && *t == "XRef" {
+					kind = "xref-stream"
+				} else if t != nil && *t == "ObjStm" {
+					kind = "object-stream"
+				}
+			}
+			if kind == "" && ctx2.Read != nil && ctx2.Read.XRefStreams[n] {
+				kind = "xref-stream"
+			}
+			if kind == "" && ctx2.Read != nil && ctx2.Read.ObjectStreams[n] {
+				kind = "object-stream"
+			}
+			if kind != "" {
+				recycled = "recycled-number-still-referenced:" + kind
+				r.OracleFail(recycled, input(c), fmt.Sprintf("the %s was given object number %d, which the document still references (free entry)", kind, n))
+			}
 		}
 		skip := map[int]bool{}
 		if before.info < 0 && ctx2.Info != nil {
@@ -383,14 +431,16 @@ func runDoc(r *vh.Run, dc docCase, configs []wconf) {
 		// ---- O
 		ok := true
 		dang := danglingRefs(after.tv, ctx2)
-		newDang := minus(dang, danglingRefs(before.tv, ctx1))
+		newDang := minus(dang, dangBefore)
 		bc, ac := before.canon, after.canon
 		if before.info < 0 {
 			// a fresh info dict holds nothing but the three volatile entries
 			ac = stripFreshInfo(ac)
 		}
 		graphSame := strings.Join(bc, "\n") == strings.Join(ac, "\n")
-		if !graphSame {
+		if recycled != "" {
+			ok = false // already reported; the changed graph is its consequence
+		} else if !graphSame {
 			ok = false
 			r.OracleFail(classifyGraphDiff(before, after, newDang, c), input(c), fmt.Sprintf("new dangling references %v; %s", newDang, firstDiff(bc, ac)))
 		}
@@ -432,7 +482,8 @@ func runDoc(r *vh.Run, dc docCase, configs []wconf) {
 		// the model is compared with the first configuration whose EOL is not CR (the tables of CR
 		// configurations can be hit by the stream defect reported as eol-cr-stream-content-changed),
 		// whatever the oracle said; the tables of the configurations that passed the oracle must agree
-		if !caseSent && (c.eol != types.EolCR || ci == len(configs)-1) {
+		// (a table hit by a recycled-number failure reported above is no reference either)
+		if !caseSent && recycled == "" && (c.eol != types.EolCR || ci == len(configs)-1) {
 			caseSent = true
 			if len(before.tv.nrs) <= dc.maxObjs {
 				r.Case("write", []string{before.tv.wire(), vh.Int(int64(before.root)), infoArg(before), vh.Bool(before.rootVer), "100"}, "ok:"+digest(text))
@@ -545,6 +596,15 @@ func main() {
 				runDoc(r, docCase{name: fmt.Sprintf("gen2-%d", i), doc: doc2, hazards: di.hazards, desc: "objstm-written," + strings.Join(di.desc, ","), maxObjs: 100000}, cs)
 			}
 		}
+	}
+
+	// references to free objects (dangling): every configuration, no other hazards
+	nDang := r.Pick(12, 60)
+	for i := 0; i < nDang; i++ {
+		v := 1 + i%6
+		doc, di := genDoc(r.Rand, genOpts{dangling: v, noInfo: (i/6)%2 == 1})
+		r.Count(fmt.Sprintf("gen:dangling-free-ref:variant%d", v))
+		runDoc(r, docCase{name: fmt.Sprintf("dang-%d", i), doc: doc, desc: strings.Join(di.desc, ","), maxObjs: 100000}, configs)
 	}
 
 	// corpus
